@@ -302,6 +302,19 @@ def _(env, I, T):
     return _req(env, 'PUT', f'/key?ajax=1&kid={kid}&key=00000000000000000000000000000009&csrf_token={T["kids"]}')
 
 
+@action('add key (PUT, the kid of an existing key in upper case)')
+def _(env, I, T):
+    kid = (sorted(I['keys'])[0] if I['keys'] else '00112233445566778899aabbccddeeff').upper()
+    return _req(env, 'PUT', f'/key?ajax=1&kid={kid}&csrf_token={T["kids"]}')
+
+
+@action('add key (PUT, the kid of an existing key as a UUID)')
+def _(env, I, T):
+    k = sorted(I['keys'])[0] if I['keys'] else '00112233445566778899aabbccddeeff'
+    kid = f'{k[:8]}-{k[8:12]}-{k[12:16]}-{k[16:20]}-{k[20:]}'
+    return _req(env, 'PUT', f'/key?ajax=1&kid={kid}&csrf_token={T["kids"]}')
+
+
 @action('add key (POST form)')
 def _(env, I, T):
     return _req(env, 'POST', '/key', data={'hkid': '2f0e0d0c0b0a09080706050403020100', 'hkey': '00000000000000000000000000000002',
@@ -466,7 +479,8 @@ def invariants(env, R, bad):
     unique('stream.directory', [s['directory'] for s in streams.values()])
     unique('media_file.name', [m['name'] for m in files.values()])
     unique('blob.filename', [b['filename'] for b in blobs.values()])
-    unique('key.hkid', [k['hkid'] for k in keys.values()])
+    # one row per key id, however it was spelt when it was added
+    unique('key.hkid', [k['hkid'].lower().replace('-', '').removeprefix('0x') for k in keys.values()])
     unique('mp_stream.name', [m['name'] for m in mps.values()])
     unique('period.(parent,pid)', [(p['parent_pk'], p['pid']) for p in periods.values()])
     unique('adaptation_set.(period,track)', [(a['period_pk'], a['track_id']) for a in adps.values()])
